@@ -54,7 +54,7 @@ def strategy(tier, phase):
         "size": st.integers(0, 8), "alias": st.sampled_from([-1, -1, -1, 0, 1]), "tname": st.integers(0, 2), "seed": st.integers(0, 2**30),
     })
     opts = st.fixed_dictionaries({
-        "threshold": st.sampled_from([0, 16, 100, 256, 1000]), "alignment": st.sampled_from([None, None, 1, 512, 4096, 65536]),
+        "threshold": st.sampled_from([0, 16, 100, 256, 1000]), "alignment": st.sampled_from([None, None, 1, 3, 512, 4096, 5000, 12288, 65536, 100000]),
         "align_threshold": st.sampled_from([0, 64, 1000, 1048576]), "shard": st.sampled_from([None, None, 64, 300, 5000, 100000]),
         "workers": st.sampled_from([None, 1, 2, 4]), "inflight": st.sampled_from([1, 100, 4096, 2**26]),
         "backend": st.sampled_from([0, 0, 1]), "dest": st.integers(0, len(DESTS) - 1), "stem": st.integers(0, len(STEMS) - 1),
